@@ -277,6 +277,8 @@ inductive PairOp (α : Type)
   | modulate (x : List α)                             -- `ofdm.modulate(x)`
   | demodulate (y : List α)                           -- `ofdm.demodulate(y)`
   | equalize (data : List α) (ir : ImpulseResponse α) -- `equalizer.equalize_data(data, ir)`
+  | usedIndexes                                       -- query `ofdm.get_used_subcarrier_indexes()`
+  | zeropadOf (n : Nat)                               -- query `ofdm._calc_zeropad(n)` -> [zeropad, num symbols]
 
 /-- one operation; `sc p` is `math.sqrt(_calculate_power_scale())` for the attributes `p`.
     `set_parameters` returns nothing (modelled as `.ok []`) or raises leaving the object unchanged. -/
@@ -289,6 +291,8 @@ def stepPair (fftK ifftK : Nat → List α → List α) (sc : Params → α) (s 
   | .modulate x => (s, .ok (modulate ifftK (sc s.ofdm) s.ofdm x))
   | .demodulate y => (s, demodulate fftK (sc s.ofdm) s.ofdm y)
   | .equalize data ir => (s, equalize fftK s.ofdm data ir)
+  | .usedIndexes => (s, .ok ((usedIdx s.ofdm.fft s.ofdm.used).map (fun (i : Nat) => (i : α))))
+  | .zeropadOf n => (s, .ok [((zeropad s.ofdm n : Nat) : α), ((numSymbols s.ofdm n : Nat) : α)])
 
 /-- a history of operations: final state and the outputs in order -/
 def runPair (fftK ifftK : Nat → List α → List α) (sc : Params → α) (s : Pair) :
